@@ -159,9 +159,11 @@ class RF24MeshNoMaster(NetworkMixin):
                 self.block_less_callback()
             if time.monotonic_ns() > timeout:
                 return -1
-        if lookup_type == MESH_ADDR_LOOKUP:
-            return struct.unpack("<H", self.frame_buf.message[:2])[0]
-        return self.frame_buf.message[0]
+        if len(self.frame_buf.message) >= 2:
+            return struct.unpack("<h", self.frame_buf.message[:2])[0]
+        if lookup_type == MESH_ID_LOOKUP and self.frame_buf.message:
+            return self.frame_buf.message[0]  # 1-byte answer of older masters
+        return -1
 
     def check_connection(self, attempts: int = 3, ping_master: bool = False) -> bool:
         """Check for network connectivity (not for use on master node)."""
@@ -340,16 +342,18 @@ class RF24Mesh(RF24MeshNoMaster):
             if msg_t in (MESH_ADDR_LOOKUP, MESH_ID_LOOKUP):
                 self.frame_buf.header.to_node = self.frame_buf.header.from_node
 
-                ret_val = 0  # will be -2 for requesting un-assigned nodes
+                ret_val = None  # will be -2 for requesting un-assigned nodes
                 if msg_t == MESH_ADDR_LOOKUP:
-                    ret_val = self.lookup_address(self.frame_buf.message[0])
-                    self.frame_buf.message = struct.pack("<H", ret_val)
-                else:
+                    if self.frame_buf.message:  # ignore truncated requests
+                        ret_val = self.lookup_address(self.frame_buf.message[0])
+                elif len(self.frame_buf.message) >= 2:
                     ret_val = self.lookup_node_id(
                         struct.unpack("<H", self.frame_buf.message[:2])[0]
                     )
-                    self.frame_buf.message = bytes([ret_val])
-                self._write(self.frame_buf.header.to_node, TX_NORMAL)
+                if ret_val is not None:
+                    # a signed 16-bit answer (like TMRh20's RF24Mesh) can carry -2
+                    self.frame_buf.message = struct.pack("<h", ret_val)
+                    self._write(self.frame_buf.header.to_node, TX_NORMAL)
             elif msg_t == MESH_ADDR_RELEASE:
                 self.release_address(self.frame_buf.header.from_node)
             self._dhcp()
